@@ -51,7 +51,9 @@ CHECKS = {
 
 NOTE = ("Trusted: Go toolchain and encoding/json; the go/ast instrumentation of the scratch copy (selftest transparency); the reference models and "
         "oracles in /verif/worker as readings of the statement. Bounds: element tables of 4-64 (thorough up to 512; C07 up to 4096) keys, histories of "
-        "10-400 (thorough up to 3000) operations; sampled, not exhaustive.")
+        "10-400 (thorough up to 3000) operations, plus large-size runs (128-1024 keys, bulk prefill to 2200 elements, variadic lists to 140); element types "
+        "int, string, struct, float64 (NaN, Inf, both zeros; comparator-based kinds); comparators natural, reversed, coarsened, and two whose results are not -1/0/1; "
+        "sampled, not exhaustive (DESIGN.md 10.2, 10.5).")
 
 def main():
     claimed = sorted(CHECKS)
